@@ -116,3 +116,21 @@ Definition schema_wf (s : schema) : bool :=
   && forallb (fun nf => fc_prefix (snd nf)) (sd_fixed (s_write s))
   && tail_wf (sd_tail (s_write s))
   && (0 <=? s_type s) && (s_type s <? 65536).
+
+(** ---------------------------------------------------------------- wire::read dispatch *)
+Inductive wmsg : Type := WKnown (s : schema) (m : mval) | WUnknown (ty : Z).
+Fixpoint find_schema (tbl : list schema) (ty : Z) : option schema :=
+  match tbl with [] => None | s :: tbl' => if s_type s =? ty then Some s else find_schema tbl' ty end.
+(** [wire::read]: 2-byte type, dispatch on the type table, [Message::Unknown] for anything else
+    (the payload is then not looked at). *)
+Definition wire_dec (pk_valid : bytes -> bool) (tbl : list schema) (b : bytes) : rres wmsg :=
+  dop (ty, r) <- read_u 2 b;
+  match find_schema tbl ty with
+  | Some s => dop (m, _) <- msg_dec pk_valid s r; ROk (WKnown s m)
+  | None => ROk (WUnknown ty)
+  end.
+Fixpoint types_distinct (seen : list Z) (tbl : list schema) : bool :=
+  match tbl with
+  | [] => true
+  | s :: tbl' => negb (existsb (Z.eqb (s_type s)) seen) && types_distinct (s_type s :: seen) tbl'
+  end.
